@@ -590,8 +590,22 @@ func endToEnd(run *rep.Run, rng *rand.Rand, tr *anthropic.Translator) {
 				writes = append(writes, k)
 				left -= k
 			}
+			var gap time.Duration
+			if i%3 == 0 {
+				// the tail of the stream really arrives in separate segments (a pause between
+				// the writes): the line "data: [DONE]", then the blank line that ends the event,
+				// then - sometimes - a keep-alive comment the backend still sends
+				tail := len("data: [DONE]\n\n")
+				if i%2 == 0 {
+					sse = append(sse, []byte(": keep-alive\n\n")...)
+					writes = []int{len(sse) - 15 - tail, tail - 1, 1, 15}
+				} else {
+					writes = []int{len(sse) - tail, tail - 1, 1}
+				}
+				gap = 4 * time.Millisecond
+			}
 			b.SetProxy(func(r *backend.Record) *backend.Resp {
-				return &backend.Resp{Status: 200, Headers: [][2]string{{"Content-Type", "text/event-stream"}}, Body: sse, Chunked: true, Writes: writes}
+				return &backend.Resp{Status: 200, Headers: [][2]string{{"Content-Type", "text/event-stream"}}, Body: sse, Chunked: true, Writes: writes, Gap: gap}
 			})
 			req, _ := http.NewRequest("POST", w.Base+"/olla/anthropic/v1/messages", bytes.NewReader([]byte(`{"model":"mall","max_tokens":64,"stream":true,"messages":[{"role":"user","content":"hi"}]}`)))
 			req.Header.Set("Content-Type", "application/json")
